@@ -119,6 +119,56 @@ fn h2_session(rt: &tokio::runtime::Runtime, src_ip: &str, port: u16, sni: &str, 
     })
 }
 
+/// one client of the given kind against the endpoint at `port`; what the client saw
+fn visit(kind: &str, rt: &tokio::runtime::Runtime, port: u16, dest_port: u16) -> Result<String, String> {
+    let target = format!("127.0.0.1:{}", dest_port);
+    match kind {
+        "tunnel-h2" => h2_session(rt, "127.0.0.1", port, "localhost", ("CONNECT", &target)).map(|s| s.to_string()),
+        "tunnel-h2-refused" => h2_session(rt, "127.0.0.1", port, "localhost", ("CONNECT", "127.0.0.1:1")).map(|s| s.to_string()),
+        "ping-h2" => h2_session(rt, "127.0.0.1", port, "ping.localhost", ("GET", "https://ping.localhost/")).map(|s| s.to_string()),
+        "tunnel-h1" => (|| {
+            let mut s = connect_from("127.0.0.1", port).map_err(|e| e.to_string())?;
+            let mut c = tls_client("localhost", &[b"http/1.1"]);
+            handshake(&mut c, &mut s)?;
+            let st = h1_connect(&mut c, &mut s, &target)?;
+            let _ = rustls::Stream::new(&mut c, &mut s).write_all(b"hello");
+            std::thread::sleep(Duration::from_millis(50));
+            Ok(st.to_string())
+        })(),
+        "unknown-sni" | "h3-only" | "denied-source" => (|| {
+            let src = if kind == "denied-source" { "127.0.0.70" } else { "127.0.0.1" };
+            let mut s = connect_from(src, port).map_err(|e| e.to_string())?;
+            let mut c = if kind == "unknown-sni" { tls_client("nosuch.example", &[b"h2"]) } else if kind == "h3-only" { tls_client("localhost", &[b"h3"]) } else { tls_client("localhost", &[b"h2"]) };
+            match handshake(&mut c, &mut s) { Ok(()) => Ok("handshake-completed".into()), Err(_) => Ok("refused".into()) }
+        })(),
+        "fragmented-hello" => (|| {
+            let mut s = connect_from("127.0.0.1", port).map_err(|e| e.to_string())?;
+            fragmented_hello(&mut s, "localhost").map(|done| if done { "handshake-completed".to_string() } else { "refused".to_string() })
+        })(),
+        "v6-loopback" => (|| {
+            let mut s = connect_from("::1", port).map_err(|e| e.to_string())?;
+            let mut c = tls_client("localhost", &[b"h2"]);
+            match handshake(&mut c, &mut s) { Ok(()) => Ok("handshake-completed".into()), Err(_) => Ok("refused".into()) }
+        })(),
+        "silent" => (|| { let s = connect_from("127.0.0.1", port).map_err(|e| e.to_string())?; std::thread::sleep(Duration::from_millis(150)); drop(s); Ok("closed".to_string()) })(),
+        _ => (|| { let mut s = connect_from("127.0.0.1", port).map_err(|e| e.to_string())?; let _ = s.write_all(b"GET / HTTP/1.1\r\nHost: x\r\n\r\n"); let mut b = [0u8; 64]; let _ = s.read(&mut b); Ok("closed".to_string()) })(),
+    }
+}
+
+/// expectations that do not need the model: what the client must see
+fn expected(kind: &str, rules_on: bool, outcome: &Result<String, String>) -> bool {
+    match kind {
+        "tunnel-h2" | "tunnel-h1" | "ping-h2" => outcome.as_deref() == Ok("200"),
+        "tunnel-h2-refused" => outcome.as_deref() == Ok("502"),
+        "unknown-sni" | "h3-only" => outcome.as_deref() == Ok("refused"),
+        "denied-source" => outcome.as_deref() == Ok(if rules_on { "refused" } else { "handshake-completed" }),
+        // a rule needs the random, the peek cannot find it in a fragmented hello: fail closed
+        "fragmented-hello" => outcome.as_deref() == Ok(if rules_on { "refused" } else { "handshake-completed" }),
+        "v6-loopback" => outcome.as_deref() == Ok("handshake-completed"),
+        _ => true,
+    }
+}
+
 const KEEP: &[&str] = &["Accepted", "PeekDone", "RulesEval", "DemuxResult", "TlsAcceptStart", "Gauge"];
 
 fn main() {
@@ -128,6 +178,9 @@ fn main() {
     let out_path = arg("--out").expect("--out");
     let trace_path = arg("--trace").expect("--trace");
     let rounds: usize = arg_or("--rounds", "3").parse().unwrap();
+    let waves: usize = arg_or("--waves", "6").parse().unwrap();
+    let width: usize = arg_or("--width", "3").parse().unwrap();
+    let mut trace_n = arg("--trace-n").map(|p| std::io::BufWriter::new(std::fs::File::create(p).unwrap()));
     let mut rep = Report::new("ep");
     watchdog::arm(&out_path, Duration::from_secs(240));
     let mut rng = StdRng::seed_from_u64(seed().wrapping_mul(31).wrapping_add(5));
@@ -172,58 +225,17 @@ fn main() {
         });
         verif::start_recording();
         // the builder always installs a rules engine (default: allow all); `rules_on` only adds deny rules
-        verif::emit("Config", format_args!("\"rules\":true,\"deny_rules\":{},\"dual\":{},\"canon\":{}", rules_on, dual,
-            if dual { "{\"::ffff:127.0.0.1\":\"127.0.0.1\",\"::ffff:127.0.0.70\":\"127.0.0.70\",\"::1\":\"::1\"}" } else { "{\"127.0.0.1\":\"127.0.0.1\",\"127.0.0.70\":\"127.0.0.70\"}" }));
-        let mut kinds = vec!["tunnel-h2", "tunnel-h1", "ping-h2", "unknown-sni", "h3-only", "denied-source", "silent", "garbage", "tunnel-h2-refused", "fragmented-hello"];
+        let canon = if dual { "{\"::ffff:127.0.0.1\":\"127.0.0.1\",\"::ffff:127.0.0.70\":\"127.0.0.70\",\"::1\":\"::1\"}" } else { "{\"127.0.0.1\":\"127.0.0.1\",\"127.0.0.70\":\"127.0.0.70\"}" };
+        verif::emit("Config", format_args!("\"rules\":true,\"deny_rules\":{},\"dual\":{},\"canon\":{}", rules_on, dual, canon));
+        let mut kinds: Vec<&'static str> = vec!["tunnel-h2", "tunnel-h1", "ping-h2", "unknown-sni", "h3-only", "denied-source", "silent", "garbage", "tunnel-h2-refused", "fragmented-hello"];
         if dual { kinds.push("v6-loopback"); }
         let mut order: Vec<&str> = vec![];
         for _ in 0..rounds { let mut k = kinds.clone(); for i in (1..k.len()).rev() { k.swap(i, rng.gen_range(0..=i)); } order.extend(k); }
         for kind in order {
             rep.eval();
             rep.nontrivial(format!("{}|{}|{}", rules_on, dual, kind));
-            let target = format!("127.0.0.1:{}", dest_port);
-            let outcome: Result<String, String> = match kind {
-                "tunnel-h2" => h2_session(&client_rt, "127.0.0.1", port, "localhost", ("CONNECT", &target)).map(|s| s.to_string()),
-                "tunnel-h2-refused" => h2_session(&client_rt, "127.0.0.1", port, "localhost", ("CONNECT", "127.0.0.1:1")).map(|s| s.to_string()),
-                "ping-h2" => h2_session(&client_rt, "127.0.0.1", port, "ping.localhost", ("GET", "https://ping.localhost/")).map(|s| s.to_string()),
-                "tunnel-h1" => (|| {
-                    let mut s = connect_from("127.0.0.1", port).map_err(|e| e.to_string())?;
-                    let mut c = tls_client("localhost", &[b"http/1.1"]);
-                    handshake(&mut c, &mut s)?;
-                    let st = h1_connect(&mut c, &mut s, &target)?;
-                    let _ = rustls::Stream::new(&mut c, &mut s).write_all(b"hello");
-                    std::thread::sleep(Duration::from_millis(50));
-                    Ok(st.to_string())
-                })(),
-                "unknown-sni" | "h3-only" | "denied-source" => (|| {
-                    let src = if kind == "denied-source" { "127.0.0.70" } else { "127.0.0.1" };
-                    let mut s = connect_from(src, port).map_err(|e| e.to_string())?;
-                    let mut c = if kind == "unknown-sni" { tls_client("nosuch.example", &[b"h2"]) } else if kind == "h3-only" { tls_client("localhost", &[b"h3"]) } else { tls_client("localhost", &[b"h2"]) };
-                    match handshake(&mut c, &mut s) { Ok(()) => Ok("handshake-completed".into()), Err(_) => Ok("refused".into()) }
-                })(),
-                "fragmented-hello" => (|| {
-                    let mut s = connect_from("127.0.0.1", port).map_err(|e| e.to_string())?;
-                    fragmented_hello(&mut s, "localhost").map(|done| if done { "handshake-completed".to_string() } else { "refused".to_string() })
-                })(),
-                "v6-loopback" => (|| {
-                    let mut s = connect_from("::1", port).map_err(|e| e.to_string())?;
-                    let mut c = tls_client("localhost", &[b"h2"]);
-                    match handshake(&mut c, &mut s) { Ok(()) => Ok("handshake-completed".into()), Err(_) => Ok("refused".into()) }
-                })(),
-                "silent" => (|| { let s = connect_from("127.0.0.1", port).map_err(|e| e.to_string())?; std::thread::sleep(Duration::from_millis(150)); drop(s); Ok("closed".to_string()) })(),
-                _ => (|| { let mut s = connect_from("127.0.0.1", port).map_err(|e| e.to_string())?; let _ = s.write_all(b"GET / HTTP/1.1\r\nHost: x\r\n\r\n"); let mut b = [0u8; 64]; let _ = s.read(&mut b); Ok("closed".to_string()) })(),
-            };
-            // expectations that do not need the model: what the client must see
-            let expect_ok = match kind {
-                "tunnel-h2" | "tunnel-h1" | "ping-h2" => outcome.as_deref() == Ok("200"),
-                "tunnel-h2-refused" => outcome.as_deref() == Ok("502"),
-                "unknown-sni" | "h3-only" => outcome.as_deref() == Ok("refused"),
-                "denied-source" => outcome.as_deref() == Ok(if rules_on { "refused" } else { "handshake-completed" }),
-                // a rule needs the random, the peek cannot find it in a fragmented hello: fail closed
-                "fragmented-hello" => outcome.as_deref() == Ok(if rules_on { "refused" } else { "handshake-completed" }),
-                "v6-loopback" => outcome.as_deref() == Ok("handshake-completed"),
-                _ => true,
-            };
+            let outcome = visit(kind, &client_rt, port, dest_port);
+            let expect_ok = expected(kind, rules_on, &outcome);
             if !expect_ok {
                 rep.violation_with(format!("endpoint:client-view:{}:{}{}", kind, if rules_on { "rules" } else { "norules" }, if dual { ":dual" } else { "" }), format!("client saw {:?}", outcome), || json!({"kind": kind, "rules": rules_on, "dual": dual}));
             }
@@ -241,9 +253,45 @@ fn main() {
                 rep.count("events", 1);
             }
         }
+        // concurrent waves (EndpointN.tla): `width` clients of random kinds at the same time
+        if let Some(tn) = trace_n.as_mut() {
+            verif::start_recording();
+            verif::emit("Config", format_args!("\"rules\":true,\"deny_rules\":{},\"dual\":{},\"canon\":{}", rules_on, dual, canon));
+            for _ in 0..waves {
+                let picks: Vec<&'static str> = (0..width).map(|_| kinds[rng.gen_range(0..kinds.len())]).collect();
+                let hs: Vec<_> = picks.iter().map(|k| {
+                    let k: &'static str = k;
+                    let stagger = rng.gen_range(0..30u64);
+                    std::thread::spawn(move || {
+                        std::thread::sleep(Duration::from_millis(stagger));
+                        let rt = tokio::runtime::Builder::new_current_thread().enable_all().build().unwrap();
+                        (k, visit(k, &rt, port, dest_port))
+                    })
+                }).collect();
+                for h in hs {
+                    rep.eval();
+                    let (k, outcome) = h.join().unwrap_or(("?", Err("client thread panicked".into())));
+                    rep.nontrivial(format!("wave|{}|{}|{}", rules_on, dual, k));
+                    if !expected(k, rules_on, &outcome) {
+                        rep.violation_with(format!("endpoint:client-view:{}:{}{}:concurrent", k, if rules_on { "rules" } else { "norules" }, if dual { ":dual" } else { "" }), format!("client saw {:?}", outcome), || json!({"kind": k, "rules": rules_on, "dual": dual, "wave": picks}));
+                    }
+                }
+                std::thread::sleep(Duration::from_millis(500));
+                verif::emit("WaveEnd", format_args!("\"n\":{}", width));
+            }
+            for l in verif::stop_recording() {
+                let v: Value = serde_json::from_str(&l).unwrap_or(json!({}));
+                let ev = v["ev"].as_str().unwrap_or("");
+                if KEEP.contains(&ev) || ev == "Config" || ev == "WaveEnd" {
+                    writeln!(tn, "{}", l.replace("\"random\":null", "\"random\":\"null\"")).unwrap();
+                    rep.count("events_concurrent", 1);
+                }
+            }
+        }
         listen.abort();
-        rep.sample(json!({"rules": rules_on, "dual": dual, "connections": rounds * kinds.len()}));
+        rep.sample(json!({"rules": rules_on, "dual": dual, "connections": rounds * kinds.len(), "waves": waves, "width": width}));
     }
     trace.flush().unwrap();
+    if let Some(tn) = trace_n.as_mut() { tn.flush().unwrap(); }
     rep.finish(&out_path);
 }
